@@ -100,7 +100,11 @@ static std::pair<std::string, std::string> run_scn(const Scn &s) {
     while (qi < qch.size() && qoff < head_end) do_req(false);
     for (int k = 0; k < s.early_req_calls && qi < qch.size(); k++) do_req(false); // early payload calls: must consume nothing
     // phase B: responses up to and including the CONNECT response, re-offering the request remainder after each call (hand-over)
-    while (si < sch.size() && soff < res_head_end) { do_res(false); if (!qpend.empty()) do_req(true); if (!spend.empty()) do_res(true); }
+    // (a response chunk may reach beyond the CONNECT response into the answers to payload requests: those requests are put on the wire first)
+    auto need_for_next_res_chunk = [&]() -> size_t { if (s.expect_tunnel || si >= sch.size() || soff + sch[si].size() <= res_head_end) return 0; size_t rel_end = soff + sch[si].size() - res_head_end; int k = -1;
+        for (int i = 0; i < s.n_after; i++) { size_t st = s.res_pay.find("HTTP/1.1 200 OK\r\nX-Pair: a" + std::to_string(i) + "z"); if (st != std::string::npos && st < rel_end) k = i; }
+        size_t need = head_end; for (int i = 0; i <= k; i++) need += pair_req_len(i); return need; };
+    while (si < sch.size() && soff < res_head_end) { size_t need = need_for_next_res_chunk(); while (qoff < need && qi < qch.size()) do_req(false); do_res(false); if (!qpend.empty()) do_req(true); if (!spend.empty()) do_res(true); }
     // phase C: the rest; server-side bytes beyond the response only once TUNNEL has been seen (or when HTTP traffic is expected)
     int guard = 0;
     while ((qi < qch.size() || si < sch.size() || !qpend.empty() || !spend.empty()) && guard++ < 4000) {
@@ -108,11 +112,11 @@ static std::pair<std::string, std::string> run_scn(const Scn &s) {
         if (qi < qch.size() || !qpend.empty()) progressed |= do_req(false);
         bool res_allowed = !s.expect_tunnel || tunnel_seen || soff < res_head_end;
         if (!s.expect_tunnel && soff >= res_head_end && si < sch.size()) {
-            // legal interleaving: the response to payload request a_k is offered only after every byte of that request was offered
+            // legal interleaving: no byte of the response to payload request a_k is offered before every byte of that request was offered to the parser at least once
             size_t rel_end = soff + sch[si].size() - res_head_end; int k = -1; // the last pair whose response has any byte in this chunk
             for (int i = 0; i < s.n_after; i++) { size_t st = s.res_pay.find("HTTP/1.1 200 OK\r\nX-Pair: a" + std::to_string(i) + "z"); if (st != std::string::npos && st < rel_end) k = i; }
             size_t need = head_end; for (int i = 0; i <= k; i++) need += pair_req_len(i);
-            if (qoff - qpend.size() < need && (qi < qch.size() || !qpend.empty())) res_allowed = false;
+            if (qoff < need && qi < qch.size()) res_allowed = false; // offered (on the wire), not necessarily consumed yet: the parser may still hold the request side back with DATA_OTHER
         }
         if (res_allowed && (si < sch.size() || !spend.empty())) progressed |= do_res(false);
         if (!progressed) break;
@@ -183,9 +187,10 @@ static Scn gen_scn() {
     auto cuts = [&](size_t len, const std::vector<size_t> &bias) { std::vector<size_t> v; int st = rcx::range(0, 3); if (st == 0) { int n = rcx::range(0, 5); for (int i = 0; i < n && len > 1; i++) v.push_back((size_t)rcx::range(1, (int)len - 1)); } else if (st == 1) { size_t step = (size_t)rcx::range(1, 30); if (len > 2000) step = len / (size_t)rcx::range(3, 60); for (size_t p = step; p < len; p += step) v.push_back(p); } else if (st == 2) { for (size_t b : bias) { long d = rcx::range(-4, 4); long p = (long)b + d; if (p > 0 && p < (long)len) v.push_back((size_t)p); } }
         std::sort(v.begin(), v.end()); v.erase(std::unique(v.begin(), v.end()), v.end()); return v; };
     size_t he = s.pre_req.size() + s.head.size();
-    s.qcuts = cuts(rq.size(), {he, he, s.pre_req.size()}); s.scuts = cuts(rs.size(), {s.pre_res.size() + s.res_head.size(), s.pre_res.size()});
+    s.qcuts = cuts(rq.size(), {he, he, s.pre_req.size()}); s.scuts = cuts(rs.size(), {s.pre_res.size() + s.res_head.size(), s.pre_res.size() + s.res_head.size() + 6, s.pre_res.size()});
     // the response stream is always cut at the end of the CONNECT response so that server-side bytes can be held back
-    { size_t e = s.pre_res.size() + s.res_head.size(); if (e < rs.size() && std::find(s.scuts.begin(), s.scuts.end(), e) == s.scuts.end()) { s.scuts.push_back(e); std::sort(s.scuts.begin(), s.scuts.end()); } }
+    // (only when a tunnel is expected; otherwise a chunk may carry the end of the CONNECT response together with the start of the next one)
+    if (s.expect_tunnel || rcx::coin()) { size_t e = s.pre_res.size() + s.res_head.size(); if (e < rs.size() && std::find(s.scuts.begin(), s.scuts.end(), e) == s.scuts.end()) { s.scuts.push_back(e); std::sort(s.scuts.begin(), s.scuts.end()); } }
     s.early_req_calls = (s.kind == 0 && !s.pay.empty()) ? rcx::range(0, 2) : 0;
     return s;
 }
